@@ -964,6 +964,94 @@ pub fn c10_spellings(rep: &mut Report) {
     }
 }
 
+// ------------------------------------------------------------------------------------ C10 (forms of the literal)
+
+/// The literal is a VALUE: however it is written in the source - plain escapes, `\x..` / `\u{..}`
+/// escapes for every character, a raw string with as many `#` as it needs, a line continuation -
+/// the generated code must be the same. Values: every regex metacharacter, quotes, a backslash at
+/// the end, line feed, NUL, DEL, non-ASCII and non-BMP characters, `#`, text that looks like an
+/// escape once un-escaped. As #[token], #[regex] (the value escaped for the regex by the harness)
+/// and skip, with and without ignore(case).
+pub fn c10_literal_forms(rep: &mut Report) {
+    let values: Vec<&str> = vec![
+        "a", "ab", ".", "a.b", "\\", "a\\", "\\n", "\"", "a\"b", "'", "\n", "a\nb", "\0", "\u{7f}", "#", "\"#", "r#\"x\"#", "é", "€x", "😊", "a+b*c?", "(x)", "[x]", "{2}", "x|y", "^x$", "\\x41", "\\u{41}",
+        "\t", " ", "a b", "//", "/*", "k", "K", "ß", "\u{212a}", "\r\n", "\\\\", "$0", "\\d", "%s{}", "\u{feff}", "\u{10ffff}",
+    ];
+    fn plain(v: &str) -> String {
+        format!("{v:?}")
+    }
+    fn all_unicode_escapes(v: &str) -> String {
+        format!("\"{}\"", v.chars().map(|c| format!("\\u{{{:x}}}", c as u32)).collect::<String>())
+    }
+    fn hex_where_ascii(v: &str) -> String {
+        format!("\"{}\"", v.chars().map(|c| if (c as u32) < 0x80 { format!("\\x{:02x}", c as u32) } else { format!("\\u{{{:X}}}", c as u32) }).collect::<String>())
+    }
+    fn raw(v: &str, extra: usize) -> Option<String> {
+        if v.contains('\r') {
+            return None; // a bare CR is not allowed in a raw string
+        }
+        let mut n = 0;
+        while v.contains(&format!("\"{}", "#".repeat(n))) {
+            n += 1;
+        }
+        let h = "#".repeat(n + extra);
+        Some(format!("r{h}\"{v}\"{h}"))
+    }
+    fn continuation(v: &str) -> Option<String> {
+        // a backslash-newline in the middle of the literal (skips the line break and leading blanks)
+        let cs: Vec<char> = v.chars().collect();
+        if cs.len() < 2 || cs[1].is_whitespace() {
+            return None;
+        }
+        let (a, b): (String, String) = (cs[..1].iter().collect(), cs[1..].iter().collect());
+        let (pa, pb) = (plain(&a), plain(&b));
+        Some(format!("{}\\\n        {}", &pa[..pa.len() - 1], &pb[1..]))
+    }
+    let mut n_forms = 0u64;
+    for v in &values {
+        let val = v.to_string();
+        let rx = regex_syntax::escape(&val);
+        for (kind, value) in [("token", val.clone()), ("regex", rx.clone()), ("skip", rx.clone())] {
+            for icase in [false, true] {
+                let wrap = |lit: &str| {
+                    let ic = if icase { ", ignore(case)" } else { "" };
+                    match kind {
+                        "skip" => format!("#[logos(skip({lit}{ic}))] enum T {{ #[token(\"zz\")] Z }}"),
+                        _ => format!("enum T {{ #[{kind}({lit}{ic})] A, #[token(\"zz\")] Z }}"),
+                    }
+                };
+                let canon_src = wrap(&plain(&value));
+                let (canon, acc) = gen_tokens(&canon_src);
+                rep.count("evaluations", 1);
+                let mut forms: Vec<(&str, String)> = vec![("every character as \\u{..}", all_unicode_escapes(&value)), ("\\x.. for ASCII", hex_where_ascii(&value))];
+                if let Some(r) = raw(&value, 0) {
+                    forms.push(("raw string", r));
+                }
+                if let Some(r) = raw(&value, 2) {
+                    forms.push(("raw string with two more #", r));
+                }
+                if let Some(c) = continuation(&value) {
+                    forms.push(("line continuation", c));
+                }
+                for (what, lit) in forms {
+                    let src = wrap(&lit);
+                    if src.parse::<proc_macro2::TokenStream>().is_err() {
+                        continue;
+                    }
+                    let (t, a) = gen_tokens(&src);
+                    n_forms += 1;
+                    rep.count("evaluations", 1);
+                    rep.count("distinct_nontrivial", 1);
+                    if (a != acc || t != canon) && rep.violations.iter().filter(|x| x.tag == "LITERAL-FORM").count() < 12 {
+                        rep.violations.push(viol("LITERAL-FORM", "c10", format!("{kind} {:?}{} written as {what}: {lit}", value, if icase { " ignore(case)" } else { "" }), format!("accepted={a} (plain spelling: {acc}); the generated code differs from that of the plain spelling {}", plain(&value)), json!({"src": src, "canon": canon_src})));
+                    }
+                }
+            }
+        }
+    }
+    rep.observe("literal_forms_compared", n_forms);
+}
+
 // ------------------------------------------------------------------------------------ C08 (attribute level)
 
 /// Equal-priority overlaps written in ways the pattern-level family cannot express: two attributes
@@ -1648,6 +1736,7 @@ pub fn replay(a: &Args, rec: &serde_json::Value) -> Report {
         "c10" => {
             let mut tmp = Report::new(&a.prop, "vgraph replay", &a.tier_name);
             c10_spellings(&mut tmp);
+            c10_literal_forms(&mut tmp);
             rep.violations = tmp.violations.into_iter().filter(|v| v.tag == tag).take(1).collect();
         }
         "c08" => {
